@@ -33,8 +33,8 @@ pub fn run(ctx: &Ctx, rec: &mut Recorder) -> Result<(), String> {
     std::fs::create_dir_all(&dir).map_err(|e| e.to_string())?;
     let mut f = std::io::BufWriter::new(std::fs::File::create(dir.join(format!("cases-{}.jsonl", ctx.shard))).map_err(|e| e.to_string())?);
     let (nprog, rich, classes, cfg_sample, enc_mode): (u64, bool, Vec<&str>, usize, &str) = match flavor.as_str() {
-        "c02" => (ctx.qt(16, 40), true, vec!["ascii", "delims", "latin1"], 32, "none"),
-        "c03" => (ctx.qt(16, 30), true, vec!["ascii", "delims", "latin1", "cp1252", "bmp", "astral", "controls"], 32, "some"),
+        "c02" => (ctx.qt(16, 24), true, vec!["ascii", "delims", "latin1"], 32, "none"),
+        "c03" => (ctx.qt(16, 12), true, vec!["ascii", "delims", "latin1", "cp1252", "bmp", "astral", "controls"], 32, "some"),
         "c05" => (ctx.qt(24, 150), true, vec!["ascii", "delims", "latin1", "bmp"], 4, "all"),
         "c10" => (ctx.qt(250, 4000), true, vec!["ascii", "delims", "latin1", "cp1252", "bmp", "astral", "controls", "bomlike"], 3, "none"),
         "c28" => (ctx.qt(300, 6000), true, vec!["ascii"], 3, "none"),
